@@ -26,6 +26,14 @@ def check(index, ctx):
                 groups.setdefault(tuple(atoms_of_desc(e["outputs"]) or []), []).append(e)
             for outs, es in groups.items():
                 es.sort(key=lambda e: e["seq"])
+                # one site in one loop activation is one sweep per iteration (the fixpoint rounds of the abstract loop repeat its event)
+                last_of = {}
+                for e in es:
+                    last_of[(e["loc"], tuple(e.get("loops") or ()))] = e
+                es = sorted(last_of.values(), key=lambda e: e["seq"])
+                if len(es) == 1 and es[0].get("loop_depth", 0) > 0 and not any("[i]" in a for a in outs) and not es[0].get("vmapped"):
+                    # the same tensors differentiated once per iteration of a loop: the site is its own predecessor
+                    es = [es[0], es[0]]
                 for e in es:
                     n_sites += 1
                     pure, const = e["retain_graph_pure"] and e["retain_graph_origin"] == ["retain_graph"], e["retain_graph_const"]
